@@ -253,6 +253,17 @@ def _check_merchant_migration(config: dict, config_dir: str, quiet: bool = False
 
     # New .rules format
     if merchants_format == 'new':
+        # get_all_rules() falls back to an empty rule set when the file cannot be
+        # parsed; tell the user what is wrong instead of classifying everything as Unknown.
+        try:
+            from pathlib import Path
+            from .merchant_engine import load_merchants_file, MerchantParseError
+            load_merchants_file(Path(merchants_file), match_mode=rule_mode)
+        except MerchantParseError as e:
+            print(f"Error: cannot load merchant rules from {merchants_file}", file=sys.stderr)
+            print(f"  {e}", file=sys.stderr)
+            print(f"\nFix the rules file and run again ('tally diag' shows more detail).", file=sys.stderr)
+            sys.exit(1)
         rules = get_all_rules(merchants_file, match_mode=rule_mode)
         if not quiet:
             print(f"Loaded {len(rules)} categorization rules from {merchants_file}")
